@@ -29,6 +29,12 @@ TEMPLATES = {
     "two_repeats": dict(sections="ABCD", marks=[("repeat", "A", "A"), ("repeat", "C", "C")], maximal="AABCCD", minimal="ABCD", n_variants=4),
     "volta": dict(sections="ABC", marks=[("repeat", "A", "B"), ("ending", "1", "B"), ("ending", "2", "C")],
                   maximal="ABAC", minimal="AC", n_variants=None),
+    # dal segno al coda: the section after the segno ends at the to-coda mark (it is both target and origin of a leap).
+    # Only the minimal unfolding is compared: which of the two readings the "maximal" policy takes is not stated.
+    "segno_coda": dict(sections="ABCD", marks=[("segno", "B"), ("tocoda", "B"), ("dalsegno", "C"), ("coda", "D")],
+                       maximal=None, minimal="ABCBD", n_variants=None),
+    "dacapo_coda": dict(sections="ABCD", marks=[("tocoda", "A"), ("dacapo", "C"), ("coda", "D")],
+                        maximal=None, minimal="ABCAD", n_variants=None),
     "dacapo_fine": dict(sections="AB", marks=[("fine", "A"), ("dacapo", "B")], maximal="ABA", minimal=None, n_variants=None),
 }
 
@@ -79,6 +85,14 @@ def build(template, L, q=4):
             part.add(S.DaCapo(), bounds[m[1]][1])
         elif m[0] == "fine":
             part.add(S.Fine(), bounds[m[1]][1])
+        elif m[0] == "segno":
+            part.add(S.Segno(), bounds[m[1]][0])
+        elif m[0] == "coda":
+            part.add(S.Coda(), bounds[m[1]][0])
+        elif m[0] == "tocoda":
+            part.add(S.ToCoda(), bounds[m[1]][1])
+        elif m[0] == "dalsegno":
+            part.add(S.DalSegno(), bounds[m[1]][1])
     return part, bounds, notes
 
 
@@ -190,9 +204,11 @@ def make(template, update_ids=True):
         part, bounds, notes = build(template, L)
         before = fingerprint(part)
         mx = must_not_raise(S.unfold_part_maximal, part, update_ids=update_ids, _what="unfold_part_maximal")
-        tot = check_unfolded(mx, part, bounds, t["maximal"], update_ids, "maximal", template)
+        obs = []
+        if t["maximal"] is not None:
+            tot = check_unfolded(mx, part, bounds, t["maximal"], update_ids, "maximal", template)
+            obs.append(int(tot))
         check(fingerprint(part) == before, "maximal: the original part was modified", before, fingerprint(part))
-        obs = [int(tot)]
         if t["minimal"] is not None:
             mn = must_not_raise(S.unfold_part_minimal, part, _what="unfold_part_minimal")
             obs.append(int(check_unfolded(mn, part, bounds, t["minimal"], False, "minimal", template)))
@@ -214,9 +230,10 @@ def make(template, update_ids=True):
 
 def _inst(tier):
     out = [{"template": "plain"}, {"template": "repeat_mid"}, {"template": "volta"}, {"template": "repeat_start", "update_ids": False},
-           {"template": "dacapo_fine"}, {"template": "nested"}, {"template": "repeat_mid_inner"}]
+           {"template": "dacapo_fine"}, {"template": "nested"}, {"template": "repeat_mid_inner"}, {"template": "segno_coda"}]
     if tier != "quick":
-        out += [{"template": "two_repeats"}, {"template": "plain_tie"}, {"template": "repeat_mid_tie"}, {"template": "repeat_mid", "update_ids": False}, {"template": "volta", "update_ids": False}]
+        out += [{"template": "two_repeats"}, {"template": "plain_tie"}, {"template": "repeat_mid_tie"}, {"template": "repeat_mid", "update_ids": False}, {"template": "volta", "update_ids": False},
+                {"template": "dacapo_coda"}, {"template": "segno_coda", "update_ids": False}]
     return out
 
 
@@ -228,7 +245,7 @@ HARNESSES = [
                  "score.unfold_part_maximal", "score.unfold_part_minimal", "score.iter_unfolded_parts",
                  "music.update_note_ids_after_unfolding", "ReplaceRefMixin.replace_refs"],
       bounds="templates: no repeat, simple repeat at the start / in the middle, nested repeats, a repeated section holding a tie and a grace note, two independent repeats, first/second "
-             "ending, da capo al fine; 2-4 sections with symbolic lengths 1..10^4 divisions; one note per section, a tie "
+             "ending, da capo al fine, dal segno al coda and da capo al coda (minimal unfolding); 2-4 sections with symbolic lengths 1..10^4 divisions; one note per section, a tie "
              "over the first and a slur over the last section boundary; update_ids on/off",
-      outside="dal segno / coda templates, nested repeats, three endings, division or signature changes inside sections"),
+      outside="the maximal unfolding of coda layouts, three endings, division or signature changes inside sections"),
 ]
